@@ -80,7 +80,9 @@ class ParserState:
 
         skip = self.parser.rules.get("SKIP")
         if isinstance(skip, SkipRule):
-            return skip.parse(self, pairs)
+            # Implicit rules never contribute to failures, fused or not.
+            with self.suppress_failures():
+                return skip.parse(self, pairs)
 
         # Unoptimized whitespace and comment rules.
         whitespace_rule = self.parser.rules.get("WHITESPACE")
